@@ -436,9 +436,20 @@ func isNumeralDelimiter(c byte) bool {
 	return strings.IndexByte(",;:#!()[]{}=/*\"'<>", c) >= 0
 }
 
-// a character that no reader can take for the start of a numeral (not a sign, digit, period, letter)
+// a character that no reader can take for the start of a numeral (not a blank, sign, digit, period, letter)
 func isCleanNonNumeral(c byte) bool {
-	return strings.IndexByte(",;:#!()[]{}=/*\"'<>", c) >= 0
+	if strings.IndexByte(",;:#!()[]{}=/*\"'<>", c) >= 0 {
+		return true
+	}
+	// control characters other than the six blanks of the "C" locale, DEL and every byte >= 0x80 (NEL 0x85 and NBSP 0xA0
+	// included: Lua runs in the "C" locale, where isspace is false for them and strtod's subject sequence cannot begin with them)
+	// Still Unspecified (as before this rule was widened): the lead bytes 0xC2, 0xE1, 0xE2, 0xE3 of UTF-8 encoded Unicode
+	// blanks - gopher-lua's fmt.Fscanf skips U+00A0, U+0085, U+2003 ... in front of a numeral, which a byte-wise reader
+	// would not; observed on the pinned tree, noted in DESIGN.md Appendix D (fifth round) and not yet enforced.
+	if c == 0xc2 || c == 0xe1 || c == 0xe2 || c == 0xe3 {
+		return false
+	}
+	return c < 0x20 && !isSpaceC(c) || c >= 0x7f
 }
 
 func (w *World) readLine(h *Handle) (Val, bool) {
